@@ -119,6 +119,8 @@ class Model:
             return 'r%d' % o[1]
         if k == 'p':
             return 'p%d:%d' % (o[1], self.sym[o[2]])
+        if k == 'q':
+            return 'q%d' % o[1]
         if k == 'f':
             return 'f%d' % int(bool(o[1]))
         raise ValueError(o)
